@@ -130,6 +130,11 @@ def run(ctx) -> int:
     for g in ("minmax_chains", "sum_chains", "symmetry"):
         texts += [tgen.GENERATORS[g](ctx.rng) for _ in range(25 if ctx.quick() else 600)]
     texts += [tgen.gen_layered(ctx.rng) for _ in range(70 if ctx.quick() else 1500)]
+    # predicates with several defining rules one of which (not the last) has a dynamic aggregate: no domain may be inferred
+    MULTI = ["{assign(T,W)} :- task(T), worker(W). load(W,L) :- worker(W), L = #sum{D,T : assign(T,W), dur(T,D)}. load(W,L) :- fixed(W,L). m(M) :- M = #max{L : load(_,L)}. #show m/1.",
+             "{a(X)} :- d(X). c(X,N) :- d(X), N = #count{Y : a(Y), Y < X}. c(X,0) :- e(X). g :- c(X,N), c(Y,N), X != Y. #show g/0.",
+             "{a(X)} :- d(X). s(X,V) :- d(X), V = #sum{Y : a(Y), Y <= X}. s(X,X) :- e(X). m(M) :- M = #min{V : s(_,V)}. #show m/1."]
+    texts += MULTI * 3
     cases = []
     for k, t in enumerate(texts):
         fl = ctx.rng.choice([semcheck.flags_only("minmax_chains"), semcheck.flags_only("sum_chains"), semcheck.flags_only("symmetry"),
